@@ -19,6 +19,7 @@ import (
 	"verif/harness/muxdrv"
 	"verif/harness/ocidrv"
 	"verif/harness/relaydrv"
+	"verif/harness/setupdrv"
 	"verif/harness/stubdrv"
 	"verif/harness/syncdrv"
 )
@@ -79,6 +80,16 @@ func main() {
 		if err := alifedrv.Run(*in, *out, *par); err != nil {
 			fail(err)
 		}
+	case "stubsetup":
+		fs := flag.NewFlagSet(mod, flag.ExitOnError)
+		in := fs.String("in", "", "scenarios")
+		out := fs.String("out", "", "trace file")
+		fs.Parse(args)
+		if err := setupdrv.Run(*in, *out); err != nil {
+			fail(err)
+		}
+	case "stubsetup-child":
+		os.Exit(setupdrv.Child())
 	case "build":
 		fs := flag.NewFlagSet(mod, flag.ExitOnError)
 		in := fs.String("in", "", "scenarios")
